@@ -98,11 +98,23 @@ func c15Play(c *c15Case) (msg string, nt bool) {
 					model[a+k] = uint8(b)
 					touched[a+k] = true
 				}
-				// the value Put returns is used for chaining (MapMemory{}.Put(...).Put(...)): it must hold the block too;
-				// that it is the receiver itself is not demanded
+				// the value Put returns is used for chaining and assignment (mem := make(DumbMemory, n).Put(...)): it is
+				// the memory, so it must read like the receiver everywhere (that it shares storage is not demanded)
 				for k, b := range op.Data {
 					if r.Get(uint16(a+k)) != uint8(b) {
 						return fmt.Sprintf("op %d: the value returned by Put does not hold the block", i), nt
+					}
+				}
+				for p := range touched {
+					if p < 0 || p > 65535 {
+						continue
+					}
+					var want uint8
+					if p < c.Len {
+						want = model[p]
+					}
+					if got := r.Get(uint16(p)); got != want {
+						return fmt.Sprintf("op %d: the value returned by Put reads %02x at %#04x, the memory holds %02x", i, got, p, want), nt
 					}
 				}
 			}
@@ -158,10 +170,13 @@ func c15Play(c *c15Case) (msg string, nt bool) {
 				if cleared {
 					nt = true
 				}
-				for k, b := range op.Data { // the returned value (used for chaining) must hold the block; the receiver is read back below
-					if r.Get(a+uint16(k)) != uint8(b) {
-						return fmt.Sprintf("op %d: the value returned by Put does not hold the block", i), nt
+				for k := range op.Data { // the returned value (used for chaining) must hold the block; the receiver is read back below
+					if x := a + uint16(k); r.Get(x) != models[v][x] {
+						return fmt.Sprintf("op %d: the value returned by Put does not hold the block (address %#04x)", i, x), nt
 					}
+				}
+				if len(op.Data) >= 65536 {
+					nt = true
 				}
 				if len(op.Data) > 0 && int(a)+len(op.Data) > 65536 {
 					nt = true
@@ -182,6 +197,16 @@ func c15Play(c *c15Case) (msg string, nt bool) {
 				pool[v].Clear()
 				models[v] = map[uint16]uint8{}
 				cleared = true
+			case "EqualNil":
+				// "Equal is true exactly for initialised MapMemory values": an uninitialised operand makes it false
+				// (nil against nil is not asserted)
+				var none z80.MapMemory
+				if pool[v].Equal(none) || none.Equal(pool[v]) {
+					return fmt.Sprintf("op %d: Equal is true between an initialised value (%d entries) and an uninitialised MapMemory", i, len(models[v])), nt
+				}
+				if len(models[v]) == 0 {
+					nt = true
+				}
 			case "Equal":
 				got := pool[v].Equal(pool[w])
 				same := len(models[v]) == len(models[w])
@@ -220,8 +245,14 @@ func c15Play(c *c15Case) (msg string, nt bool) {
 			// every value agrees with its model on all addresses either knows, plus neighbours
 			for pi := range pool {
 				probe := []uint16{0, 0xFFFF, a, a + 1, a - 1, a + uint16(len(op.Data))}
-				for k := range models[pi] {
-					probe = append(probe, k)
+				if len(models[pi]) <= 4096 {
+					for k := range models[pi] {
+						probe = append(probe, k)
+					}
+				} else { // after a huge Put: a moving comb over the whole address space instead of every entry
+					for k := 0; k < 256; k++ {
+						probe = append(probe, uint16(k*257+i*31))
+					}
 				}
 				for _, k := range probe {
 					want, ok := models[pi][k]
@@ -254,7 +285,7 @@ func TestC15(t *testing.T) {
 	col.Sub = "mem"
 	defer finish(t, col)
 	col.Rule = "rapid-generated operation histories: DumbMemory of length in {0,1,2,255,256,257,65535,65536,random} with Get/Set anywhere in 0..65535 (biased to len-1, len, len+1) and Put of blocks inside the slice; " +
-		"DumbIO of length 0..300 over all 256 ports; MapMemory pools of up to four live values with Set/Put (blocks wrapping past 0xFFFF)/Clone/Clear/Equal; after every operation all touched addresses, " +
+		"DumbIO of length 0..300 over all 256 ports; MapMemory pools of up to four live values with Set/Put (blocks wrapping past 0xFFFF, now and then 65535..65600 bytes)/Clone/Clear/Equal (also against an uninitialised value); after every operation all touched addresses, " +
 		"their neighbours and the ends of the address space are read back and compared with an array / map model; Equal compared with model equality (explicit-default vs absent entries not asserted) and must be false " +
 		"for other dynamic types; non-trivial = history with an out-of-range access (slice types) or writes after Clone/Clear or a wrapping Put (map); distinct by hash(history)"
 	rapid.Check(t, func(t *rapid.T) {
@@ -313,7 +344,7 @@ func TestC15(t *testing.T) {
 			addr := rapid.OneOf(rapid.SampledFrom([]int{0, 1, 2, 0xFFFE, 0xFFFF, 0x8000, 0x7FFF, 0x0100}), rapid.IntRange(0, 65535))
 			val := rapid.SampledFrom([]int{0x00, 0xC7, 0xC7, 0x01, 0xFF})
 			for i := 0; i < nops; i++ {
-				op := c15Op{Op: rapid.SampledFrom([]string{"Set", "Set", "Put", "Put", "Clone", "Clear", "Equal", "Equal", "Equal"}).Draw(t, "op")}
+				op := c15Op{Op: rapid.SampledFrom([]string{"Set", "Set", "Put", "Put", "Clone", "Clear", "Equal", "Equal", "Equal", "EqualNil"}).Draw(t, "op")}
 				op.V, op.W = rapid.IntRange(0, 3).Draw(t, "v"), rapid.IntRange(0, 3).Draw(t, "w")
 				op.Addr = addr.Draw(t, "addr")
 				switch op.Op {
@@ -327,8 +358,11 @@ func TestC15(t *testing.T) {
 					switch rapid.IntRange(0, 11).Draw(t, "longPut") {
 					case 0:
 						op.Data = append(op.Data, byteData(rapid.IntRange(1, 6).Draw(t, "more"))...)
-					case 1: // a big block (also onto an empty or just cleared value)
+					case 1: // a big block (also onto an empty or just cleared value); now and then a whole address space and more
 						n := rapid.SampledFrom([]int{255, 256, 257, 600, 1024}).Draw(t, "big")
+						if rapid.IntRange(0, 39).Draw(t, "huge") == 0 {
+							n = rapid.SampledFrom([]int{65535, 65536, 65537, 65600}).Draw(t, "hugeLen")
+						}
 						for j := 0; j < n; j++ {
 							op.Data = append(op.Data, (j*7+op.Addr)&0xff)
 						}
